@@ -51,6 +51,7 @@ def handle : Handler := fun j => do
   pure <| Json.mkObj [
     ("discrepancies", Json.arr (ds.map (jDisc lo)).toArray),
     ("frame", Json.arr (fr.map (fun (n : Nat) => toJson n)).toArray),
+    ("wellFormed", toJson (wellFormedHistory logs)),
     ("rows", Json.mkObj [("transactions", toJson db.transactions.length), ("moves", toJson db.moves.length), ("accounts", toJson db.accounts.length),
       ("transactions_metadata", toJson db.transactions_metadata.length), ("accounts_metadata", toJson db.accounts_metadata.length), ("logs", toJson db.logs.length)])]
 
@@ -58,6 +59,7 @@ structure Acc where
   histories : Nat := 0
   discrepant : Nat := 0
   frameBreaks : Nat := 0
+  wellFormed : Nat := 0
   counts : List (String × Nat) := []          -- "class | explanation" -> histories showing it
   witnesses : List (String × List CLog) := []  -- first (hence shortest) history per key
 
@@ -74,10 +76,12 @@ def handleEnum : Handler := fun j => do
     { histories := acc.histories + 1,
       discrepant := if keys.isEmpty then acc.discrepant else acc.discrepant + 1,
       frameBreaks := if fr.isEmpty then acc.frameBreaks else acc.frameBreaks + 1,
+      wellFormed := if wellFormedHistory logs then acc.wellFormed + 1 else acc.wellFormed,
       counts := keys.foldl (fun c k => bump k c) acc.counts,
       witnesses := keys.foldl (fun w k => if w.any (fun x => x.1 == k) then w else w ++ [(k, logs)]) acc.witnesses }) {}
   pure <| Json.mkObj [
     ("depth", toJson depth), ("histories", toJson acc.histories), ("discrepant", toJson acc.discrepant), ("frameBreaks", toJson acc.frameBreaks),
+    ("wellFormed", toJson acc.wellFormed),
     ("counts", Json.mkObj (acc.counts.map (fun kn => (kn.1, toJson kn.2)))),
     ("witnesses", Json.arr (acc.witnesses.map (fun w => Json.mkObj [("key", Json.str w.1),
         ("ledgers", Json.arr ((ledgersOf w.2).map Json.str).toArray), ("logs", Json.arr (w.2.map jLog).toArray)])).toArray)]
